@@ -366,6 +366,10 @@ impl<'a> Run<'a> {
                     }
                 } else {
                     self.r.oracle.push(("hub-unresponsive".into(), format!("no answer to ListWorkers within 5 s at op {op_idx}")));
+                    // nothing more can be learnt from this main process: the rest of
+                    // the case is skipped instead of waiting 8 s per step
+                    self.hub_gone = true;
+                    self.hub_gone_at = Some(op_idx);
                 }
             }
         }
@@ -631,7 +635,7 @@ impl<'a> Run<'a> {
         let cpath = std::ffi::CString::new(path.to_string_lossy().as_bytes()).unwrap();
         // SAFETY: plain mkfifo on a path inside the rig's private directory
         if unsafe { libc::mkfifo(cpath.as_ptr(), 0o600) } != 0 {
-            return "unrealisable".into();
+            panic!("{SETUP} mkfifo failed: {}", std::io::Error::last_os_error());
         }
         let mut client = self.rig.connect();
         let req: Request = RequestType::SaveState(path.to_string_lossy().to_string()).into();
@@ -710,7 +714,7 @@ impl Area for Hubs {
         gen_case(rng, thorough)
     }
     fn lines_agree(&self, impl_line: &str, model_line: &str) -> bool {
-        if impl_line == model_line || impl_line == "timing-unreliable" {
+        if impl_line == model_line || impl_line == "inconclusive" {
             return true;
         }
         // the response log is compared only when the failure message has the
@@ -742,18 +746,28 @@ impl Area for Hubs {
         let mut r = ImplRun::default();
         for attempt in 0..3 {
             r = ImplRun::default();
-            let bad = run_case(ops, &mut r);
-            if !bad {
-                break;
-            }
+            // a panic of the HARNESS thread (set-up failure: temp dir, sockets, hub
+            // thread start, FIFO; or a harness bug) says nothing about the code
+            // under test: retried, then counted as inconclusive
+            let res = std::panic::catch_unwind(std::panic::AssertUnwindSafe(|| run_case(ops, &mut r)));
+            let why = match res {
+                Ok(false) => break,
+                Ok(true) => "timing-unreliable".to_string(),
+                Err(e) => {
+                    let t = panic_text(&*e);
+                    if t.starts_with(SETUP) { "setup-failed".to_string() } else { format!("harness-panic:{}", t.chars().take(60).collect::<String>().replace(' ', "_")) }
+                }
+            };
             if attempt == 2 {
-                // the machine was too slow to keep real time and model time apart
-                r.out = r.out.iter().map(|_| "timing-unreliable".to_string()).collect();
+                r.out = ops.iter().map(|_| "inconclusive".to_string()).collect();
                 r.oracle.clear();
                 r.tags.retain(|t| t.starts_with("timing:"));
-                r.tags.push("timing-unreliable".into());
-                eprintln!("timing-unreliable case: {ops:?} {:?}", r.tags);
+                r.tags.push("inconclusive".into());
+                r.tags.push(format!("inconclusive:{why}"));
                 r.nontrivial = false;
+                eprintln!("inconclusive case ({why}): {ops:?} {:?}", r.tags);
+            } else {
+                std::thread::sleep(Duration::from_millis(50 << attempt));
             }
         }
         r
@@ -1160,10 +1174,45 @@ fn main() {
     std::panic::set_hook(Box::new(|_| {}));
     let args = parse_args();
     let mut dummy = spawn_dummy();
-    let code = real_main(&args);
-    let _ = dummy.kill();
-    let _ = dummy.wait();
+    let code = match std::panic::catch_unwind(std::panic::AssertUnwindSafe(|| real_main(&args))) {
+        Ok(c) => inconclusive_rule(&args, c),
+        Err(e) => {
+            // never leave the check without a result file
+            let res = serde_json::json!({"area": "hub", "property": args.prop, "evaluations": 0,
+                "failures": [{"kind": "oracle", "class": "harness-inconclusive", "detail": format!("the harness runner panicked: {}", panic_text(&*e)), "case": -1, "ops": [], "impl_out": [], "model_out": []}]});
+            if !args.out.is_empty() {
+                let _ = std::fs::write(&args.out, serde_json::to_string_pretty(&res).unwrap());
+            }
+            1
+        }
+    };
+    if let Some(d) = dummy.as_mut() {
+        let _ = d.kill();
+        let _ = d.wait();
+    }
     std::process::exit(code);
+}
+
+/// inconclusive cases (set-up failures, unreliable timing) are not failures by
+/// themselves; above 5 % of the cases the run says so with its own class
+fn inconclusive_rule(args: &Args, code: i32) -> i32 {
+    if args.out.is_empty() || args.replay.is_some() {
+        return code;
+    }
+    let Ok(txt) = std::fs::read_to_string(&args.out) else { return code };
+    let Ok(mut res) = serde_json::from_str::<serde_json::Value>(&txt) else { return code };
+    let n = res["evaluations"].as_u64().unwrap_or(0);
+    let inc = res["distribution"]["inconclusive"].as_u64().unwrap_or(0);
+    if n > 0 && inc * 20 > n {
+        let f = serde_json::json!({"kind": "oracle", "class": "harness-inconclusive", "detail": format!("{inc} of {n} cases were inconclusive (set-up failures / unreliable timing): the machine is too loaded for this run to mean anything"), "case": -1, "ops": [], "impl_out": [], "model_out": []});
+        if let Some(a) = res["failures"].as_array_mut() {
+            a.push(f);
+        }
+        let _ = std::fs::write(&args.out, serde_json::to_string_pretty(&res).unwrap());
+        println!("FAIL oracle harness-inconclusive {inc} of {n} cases");
+        return 1;
+    }
+    code
 }
 
 fn real_main(args: &Args) -> i32 {
